@@ -155,3 +155,28 @@ Lemma sel_split_r (x : M) : x = x * Df + x * Dp.
 Proof. by rewrite -mulrDr (sel_sum SE) mulr1. Qed.
 
 End Sel.
+
+(* Instance: square matrices over any ring R with an involutive ring morphism (entry-wise conjugation; the identity
+   for real matrices), transpose = trmx.  R commutative is what makes trmx anti-multiplicative. *)
+Section MatrixInstance.
+Variable R : comRingType.
+Variable cjR : {rmorphism R -> R}.
+Hypothesis cjRK : involutive cjR.
+Variable n : nat.
+Local Notation Mx := 'M[R]_n.+1.
+
+Definition mx_tr (a : Mx) : Mx := a^T%R.
+Definition mx_cj (a : Mx) : Mx := map_mx cjR a.
+
+Lemma matrix_star_laws : star_laws mx_tr mx_cj.
+Proof.
+  split; rewrite /mx_tr /mx_cj.
+  - by move=> a b; rewrite trmx_mul.
+  - by move=> a b; rewrite linearD.
+  - by move=> a; rewrite trmxK.
+  - by move=> a b; rewrite map_mxM.
+  - by move=> a b; rewrite map_mxD.
+  - by move=> a; apply/matrixP => i j; rewrite !mxE cjRK.
+  - by move=> a; rewrite map_trmx.
+Qed.
+End MatrixInstance.
